@@ -168,9 +168,10 @@ def v2(ctx):
             if pol and isinstance(t, ast.Attribute) and t.attr == "errors":
                 on_errors = True
             if pol and isinstance(t, ast.Name):
-                for d in du.reaching(r, t.id):
-                    if d.value is not None and any(isinstance(x, ast.Call) and (dotted(x.func) or "").split(".")[-1] == "validate_calendar"
-                                                   for x in ast.walk(d.value)):
+                from ..dataflow import origins as _orig
+                for o in _orig(du, r, t):
+                    if o.leaf is not None and any(isinstance(x, ast.Call) and (dotted(x.func) or "").split(".")[-1] == "validate_calendar"
+                                                  for x in ast.walk(o.leaf)):
                         on_validate = True
     obs.append(ctx.ob(on_errors, f.qualname, f.where, "raises on cal.errors",
                       "InvalidFileContents is raised when the parsed calendar reports errors",
@@ -187,7 +188,9 @@ def v2(ctx):
         for t, pol in cfgv.required_conditions(y):
             if pol and isinstance(t, ast.Compare) and isinstance(t.ops[0], ast.In):
                 ctrl = True
-    loops = [n for n in cfgv.nodes if n.kind == "for" and "_INVALID_CONTROL_CHARACTERS" in src(n.ast.iter)]
+    from ..dataflow import iter_exprs as _iters
+    duv = DefUse(cfgv)
+    loops = [n for n in cfgv.nodes if n.kind == "for" and any("_INVALID_CONTROL_CHARACTERS" in src(it) for it in _iters(duv, n))]
     recurse = any(isinstance(n, ast.Call) and dotted(n.func) == "validate_component" for n in walk_local(vc.node))
     obs.append(ctx.ob(ctrl and bool(loops) and recurse, vc.qualname, vc.where, "control-character scan over all components",
                       "yields for each forbidden character in each text value, recursing into sub-components",
